@@ -206,8 +206,8 @@ def instrument(repo, rel, entries):
     src = open(path).read()
     tree = ast.parse(src, filename=rel)
     try:
-        from translate.common import sink_branch_locals
-        sink_branch_locals(tree)          # the same behaviour-preserving normalisation T2 applies before it writes the plan
+        from translate.common import normalise
+        normalise(tree)          # the same behaviour-preserving normalisation T2 applies before it writes the plan
     except ImportError:
         pass
     ins = Instr(entries)
